@@ -213,6 +213,15 @@ pixman_gradient_walker_pixel_32 (pixman_gradient_walker_t *walker,
     f.g = f.a * (walker->g_s * y + walker->g_b);
     f.b = f.a * (walker->b_s * y + walker->b_b);
 
+    /* "Normalized" holds up to rounding only: slope * y + intercept cancels
+     * in single precision far away from two close stops of a repeating
+     * gradient, and 255.5 or more would be packed as 0.
+     */
+    f.a = CLIP (f.a, 0.f, 255.f);
+    f.r = CLIP (f.r, 0.f, 255.f);
+    f.g = CLIP (f.g, 0.f, 255.f);
+    f.b = CLIP (f.b, 0.f, 255.f);
+
     return (((uint32_t)(f.a + .5f) << 24) & 0xff000000) |
            (((uint32_t)(f.r + .5f) << 16) & 0x00ff0000) |
            (((uint32_t)(f.g + .5f) <<  8) & 0x0000ff00) |
